@@ -232,21 +232,24 @@ func (i *input) lex() {
 					if i.eof() {
 						return
 					}
-					c := i.readRune()
-					comment.WriteRune(c)
+					// Look for the markers before consuming a rune, so
+					// that an empty comment is recognized.
 					if i.lang.NestedComments() && i.match(start) {
 						// Allows nested comments.
 						comment.WriteString(start)
 						nesting++
+						continue
 					}
 					if i.match(end) {
 						if nesting > 0 {
 							comment.WriteString(end)
 							nesting--
-						} else {
-							break
+							continue
 						}
+						break
 					}
+					c := i.readRune()
+					comment.WriteRune(c)
 				}
 				i.comments = append(i.comments, &Comment{
 					StartLine: startLine,
